@@ -48,6 +48,10 @@ class SimBroker:
             if self.world is not None:
                 self.world.sim.count("fault_sub_raise")
             raise RuntimeError(f"simulated subscribe failure #{idx}")
+        if isinstance(qos, bool) or not isinstance(qos, int) or not 0 <= qos <= 2:
+            # what a real client library (paho) does with a QoS MQTT does not have
+            self.raised["sub_qos"] = self.raised.get("sub_qos", 0) + 1
+            raise ValueError(f"Invalid QoS level: {qos!r}")
         self.subs.append((topic, qos, callback))
         if self.world is not None:
             self.world.sim.ev("subscribe", topic, qos)
